@@ -45,10 +45,11 @@ import (
 
 func init() { Register("C06", Domain{Gen: c06Gen, Run: c06Run}) }
 
-// A request that has not returned after c06OpTimeout is reported as `hang`. Only Uint32SliceDelete
-// is known to be able to block forever; it gets the short limit, everything else a limit that a
-// loaded machine cannot reach by accident.
-const c06OpTimeout = 4 * time.Second
+// A request that has not returned after c06OpTimeout is reported as `hang`: a limit that a loaded
+// machine cannot reach by accident.  (Uint32SliceDelete used to block forever on a live key; since
+// the repair of that deadlock it is drawn as often as any other request and has the same limit.
+// If the deadlock comes back, every such request costs the full limit and is reported.)
+const c06OpTimeout = 60 * time.Second
 const c06SlowTimeout = 60 * time.Second
 
 type c06State struct {
@@ -63,7 +64,12 @@ type c06State struct {
 	rigDead bool
 }
 
-var c06Kinds = []string{"mem", "p0", "p1", "mems", "p0s", "p1s"}
+// p1 swamps buffer writes; their write ticker is set to an hour so that WHEN a record reaches the
+// file (close, restart, idle close) is decided by the history alone.  The ticker itself is
+// exercised on the kind p1t (1 s interval): there every `wait` of >= 2500 ms is a point at which
+// the ticker has certainly run, and the generator puts such a wait in front of every request
+// whose outcome depends on what has been written (delete, close, restart).
+var c06Kinds = []string{"mem", "p0", "p1", "mems", "p0s", "p1s", "p1t"}
 
 func c06Sanctuary(kind string) string { return "kv" + kind }
 
@@ -79,6 +85,9 @@ func c06Register(r *Rig) {
 		} else {
 			wi := int64(0)
 			if strings.HasPrefix(k, "p1") {
+				wi = 3600
+			}
+			if k == "p1t" {
 				wi = 1
 			}
 			r.Settings.RegisterPattern(pat, false, idle, &settings.FileSystemSettings{WriteIntervalSec: wi, MaxFileSizeByte: 8192, UseChroniclerV2: true})
@@ -1197,7 +1206,7 @@ func c06RandOp(rng *rand.Rand, meta bool) string {
 		return "issw"
 	case r < 77:
 		return c06IncOp(rng, c06Pick(rng, c06Keys))
-	case r < 88:
+	case r < 83:
 		return "push " + c06U32Pairs(rng)
 	case r < 89:
 		return "u32del " + c06U32Pairs(rng)
@@ -1271,11 +1280,6 @@ func c06Gen(rng *rand.Rand, tier string, w *bufio.Writer) {
 		ops := make([]string, 0, l)
 		for j := 0; j < l; j++ {
 			o := c06RandOp(rng, meta)
-			// nearly every Uint32SliceDelete on a live key ends in the (listed) self-deadlock and costs
-			// the op timeout: (before the repair of that deadlock) costs the op timeout: one case in six (thorough: every second)
-			for strings.HasPrefix(o, "u32del") && !(i%6 == 0 || (tier == "thorough" && i%2 == 0)) {
-				o = c06RandOp(rng, meta)
-			}
 			ops = append(ops, o)
 		}
 		emit(kind, ops)
